@@ -163,7 +163,7 @@ pub fn run_c17(a: &WorkerArgs) -> Out {
             bump(&mut strategies, strategy.name());
         }
         bump(&mut personalities, w.personality);
-        bump(&mut grammar_kinds, if w.grammar_ast.is_some() { "generated" } else { "doc-comment grammar" });
+        bump(&mut grammar_kinds, &w.grammar_kind);
         for c in &w.script {
             if let c17::Cmd::Run { cap, .. } = c {
                 bump(&mut caps, &format!("capacity_{cap}"));
